@@ -41,11 +41,8 @@ Proof. intros t b u n; induction b as [|[v m] r IH]; simpl; [lia|]. rewrite IH. 
 
 Lemma J_init : forall c n, Hc c -> J (ad_init c n).
 Proof.
-  intros c n H. constructor; simpl; auto.
-  - intros _. split; [discriminate|congruence].
-  - discriminate.
-  - discriminate.
-  - intros t f E. unfold task in E. simpl in E. apply repeat_nth_idle in E. discriminate.
+  intros c n H. constructor; simpl; auto; try discriminate.
+  intros _. split; [discriminate|congruence].
 Qed.
 
 Lemma paused_false_empty : forall a, J a -> w_paused (a_w a) = false -> a_buf a = [].
@@ -62,26 +59,26 @@ Lemma J_renorm : forall a b', J a -> a_dead a = false -> Forall pos b' ->
   J (maybe_pause (maybe_resume (with_buf b' a))).
 Proof.
   intros a b' [[Ch Cl] Jd Jp Jpp Jw Jl Jr] D P R.
-  unfold maybe_resume, maybe_pause, with_buf. simpl. rewrite Ch, Cl.
   destruct b' as [|x r].
-  - simpl. destruct (a_ppaused a) eqn:PP; simpl.
-    + constructor; simpl; auto; try (split; auto; fail).
-      * intros _. split; [discriminate|congruence].
-      * discriminate.
-    + rewrite PP. simpl. constructor; simpl; auto; try (split; auto; fail).
-      * intros _. split; [congruence|congruence].
-      * congruence.
+  - destruct (a_ppaused a) eqn:PP.
+    + unfold maybe_resume, with_buf. simpl. rewrite ?PP, ?Cl. simpl.
+      unfold maybe_pause. simpl. rewrite ?Ch. simpl.
+      constructor; simpl; auto; try (split; auto; fail); try discriminate.
+      intros _. split; [discriminate|congruence].
+    + unfold maybe_resume, with_buf. simpl. rewrite ?PP. simpl.
+      unfold maybe_pause. simpl. rewrite ?Ch, ?PP. simpl.
+      constructor; simpl; auto; try (split; auto; fail); try congruence.
+      intros _. split; congruence.
   - assert (S : 0 < buf_size (x :: r)) by (apply size_pos; auto; discriminate).
-    assert (E1 : (buf_size (x :: r) <=? 0) = false) by lia. rewrite E1, andb_false_r. simpl.
+    assert (E1 : (buf_size (x :: r) <=? 0) = false) by lia.
     assert (E2 : (0 <? buf_size (x :: r)) = true) by lia.
-    change (snd x + buf_size r) with (buf_size (x :: r)). rewrite E2. simpl.
+    unfold maybe_resume, with_buf. cbn [a_ppaused a_buf a_cfg a_dead a_w]. rewrite Cl, E1, andb_false_r.
+    unfold maybe_pause. cbn [a_ppaused a_buf a_cfg a_dead a_w]. rewrite Ch, E2.
     destruct (a_ppaused a) eqn:PP; simpl.
-    + constructor; simpl; auto; try (split; auto; fail).
-      * congruence.
-      * intros _. split; [discriminate|auto].
-    + constructor; simpl; auto; try (split; auto; fail).
-      * congruence.
-      * intros _. split; [discriminate|auto].
+    + constructor; simpl; auto; try (split; auto; fail); try congruence.
+      intros _. split; [discriminate|auto].
+    + constructor; simpl; auto; try (split; auto; fail); try congruence.
+      intros _. split; [discriminate|auto].
 Qed.
 
 Lemma renorm_grow : forall a b', J a -> a_dead a = false -> Forall pos b' -> b' <> [] ->
@@ -97,10 +94,10 @@ Lemma renorm_shrink : forall a b', J a -> a_dead a = false -> a_buf a <> [] -> F
 Proof.
   intros a b' [[Ch Cl] Jd Jp Jpp Jw Jl Jr] D N P.
   assert (PP : a_ppaused a = true) by (apply Jpp; auto).
-  unfold maybe_resume, maybe_pause, with_buf. simpl. rewrite Ch, Cl, PP. simpl.
-  destruct (buf_size b' <=? 0) eqn:E; simpl.
+  unfold maybe_resume, with_buf. cbn [a_ppaused a_buf a_cfg a_dead a_w]. rewrite Cl, PP. simpl.
+  destruct (buf_size b' <=? 0) eqn:E; unfold maybe_pause; cbn [a_ppaused a_buf a_cfg a_dead a_w]; rewrite Ch.
   - assert (E2 : (0 <? buf_size b') = false) by lia. rewrite E2. reflexivity.
-  - rewrite andb_false_r. reflexivity.
+  - rewrite ?PP; simpl; rewrite ?andb_false_r; reflexivity.
 Qed.
 
 (* the flow-control labels that neither pause nor resume nor lose *)
@@ -115,20 +112,22 @@ Proof.
   - unfold get_task in H. destruct (nth_error (w_tasks w) u) as [x|] eqn:E; [|discriminate].
     destruct x; try discriminate. unfold wfc_drain, drain_body in H.
     destruct (w_closing w); [|destruct (w_lost w) eqn:L; [|destruct (negb (w_paused w))]]; inversion H; subst; simpl;
-      repeat split; auto; intros t f X; try (apply nth_error_upd_cases in X; destruct X as [[? ?]|[? X]]; congruence); auto.
+      repeat split; auto; try (intros t f X; try (apply nth_error_upd_cases in X; destruct X as [[? ?]|[? X]]; congruence); auto).
   - unfold get_task in H. destruct (nth_error (w_tasks w) u) as [x|] eqn:E; [|discriminate].
-    destruct x as [|c|g st]; try discriminate; inversion H; subst; simpl; repeat split; auto; intros t f X;
-      apply nth_error_upd_cases in X; destruct X as [[? ?]|[? X]]; congruence.
+    destruct x as [|c|g st]; try discriminate; inversion H; subst; simpl; repeat split; auto;
+      try (intros t f X; apply nth_error_upd_cases in X; destruct X as [[? ?]|[? X]]; congruence).
   - destruct (mem_fid g (w_deque w) && fut_done g (w_tasks w)); [|discriminate]. inversion H; subst. simpl. auto.
   - unfold get_task in H. destruct (nth_error (w_tasks w) u) as [x|] eqn:E; [|discriminate].
     destruct x as [|c|g st]; try discriminate.
     + destruct c.
       * inversion H; subst. simpl. repeat split; auto. intros t f X.
         apply nth_error_upd_cases in X; destruct X as [[? ?]|[? X]]; congruence.
-      * unfold drain_body in H. simpl in H.
-        destruct (w_lost w); [|destruct (negb (w_paused w))]; inversion H; subst; simpl; repeat split; auto; intros t f X;
-          repeat (match goal with H0 : nth_error (upd _ _ _) _ = Some _ |- _ =>
-                    apply nth_error_upd_cases in H0; destruct H0 as [[? ?]|[? H0]]; try congruence end); auto.
+      * unfold drain_body, set_task, set_tasks in H. simpl in H.
+        destruct (w_lost w) eqn:L; [|destruct (negb (w_paused w))]; inversion H; subst; unfold set_task, set_tasks; simpl;
+          repeat split; auto;
+          try (intros t f X;
+               repeat (match goal with H0 : nth_error (upd _ _ _) _ = Some _ |- _ =>
+                         apply nth_error_upd_cases in H0; destruct H0 as [[? ?]|[? H0]]; try congruence end); auto).
     + destruct (res_of st); [|discriminate]. inversion H; subst. simpl. repeat split; auto. intros t f X.
       apply nth_error_upd_cases in X; destruct X as [[? ?]|[? X]]; congruence.
 Qed.
@@ -140,6 +139,7 @@ Proof.
   intros a w' [Jc Jd Jp Jpp Jw Jl Jr] E1 E2 E3. constructor; simpl; auto.
   - intros D P. rewrite E1. auto.
   - rewrite E2. auto.
+  - intros t f X. eauto.
 Qed.
 
 (* a drain()/wake-up that returns normally finds write not paused, or a future completed by resume_writing *)
@@ -151,7 +151,7 @@ Proof.
     destruct x; try discriminate. unfold wfc_drain, drain_body in H.
     destruct (w_closing w); [|destruct (w_lost w) eqn:L; [|destruct (w_paused w) eqn:P; simpl in H]];
       inversion H; subst; simpl in I; auto; destruct I as [I|[]]; try discriminate.
-    destruct (w_lost_exc w); discriminate.
+    try (destruct (w_lost_exc _); discriminate).
   - unfold get_task in H. destruct (nth_error (w_tasks w) u) as [x|] eqn:E; [|discriminate].
     destruct x as [|c|g st]; try discriminate; inversion H; subst; simpl in I; contradiction.
   - destruct (mem_fid g (w_deque w) && fut_done g (w_tasks w)); [|discriminate]. inversion H; subst. contradiction.
@@ -161,7 +161,7 @@ Proof.
       * inversion H; subst. simpl in I. destruct I as [I|[]]. discriminate.
       * unfold drain_body in H. simpl in H.
         destruct (w_lost w); [|destruct (w_paused w) eqn:P; simpl in H]; inversion H; subst; simpl in I; auto;
-          destruct I as [I|[]]; try discriminate. destruct (w_lost_exc w); discriminate.
+          destruct I as [I|[]]; try discriminate. try (destruct (w_lost_exc _); discriminate).
     + destruct st; simpl in H; try discriminate; inversion H; subst; simpl in I; destruct I as [I|[]]; try discriminate.
       * inversion I; subst. right. eauto.
       * destruct conn; discriminate.
